@@ -252,9 +252,26 @@ void CaptureModulePayload::setData(const std::string_view deviceDescription,
     payloadData.resize(newSize);
 }
 
-bool CaptureModulePayload::isValidPayload([[maybe_unused]] const uint8_t* data, const size_t size)
+bool CaptureModulePayload::isValidPayload(const uint8_t* data, const size_t size)
 {
-    return (size >= sizeof(Header));
+    if (size < sizeof(Header))
+        return false;
+
+    // Device description, serial number, hardware version, software version and vendor data:
+    // every length-prefixed section has to lie inside the payload
+    size_t pos = sizeof(Header);
+    for (int i = 0; i < 5; ++i)
+    {
+        if (size - pos < sizeof(uint16_t))
+            return false;
+        const size_t length = swapEndian(*reinterpret_cast<const uint16_t*>(data + pos));
+        pos += sizeof(uint16_t);
+        if (size - pos < length)
+            return false;
+        pos += length;
+    }
+
+    return true;
 }
 
 const CaptureModulePayload::Header* CaptureModulePayload::getHeader() const
